@@ -18,6 +18,7 @@ Nothing here changes the model files; the definitions are what the theorems of `
 `Props/C19.lean` are stated with.
 -/
 import VectorModel.Glue.Methods
+import VectorModel.Prim.Exec
 
 set_option linter.unusedVariables false
 set_option linter.constructorNameAsVariable false
@@ -160,8 +161,11 @@ def colPos (ty : VT) : CName → Option Nat
   | .t => if ty.tmp = some .t then some 3 else none
   | .tau => if ty.tmp = some .tau then some 3 else none
 
-/-- name index `a["x"]`: the stored column of that name -/
-def column (a : Vec (ι → X)) (c : CName) : Option (ι → X) := (colPos a.ty c).bind (a.c[·]?)
+/-- the STORED coordinate named `c` of a vector (none if the vector's coordinate system has no such coordinate) -/
+def Vec.stored {S : Type} (v : Vec S) (c : CName) : Option S := (colPos v.ty c).bind (v.c[·]?)
+
+/-- name index `a["x"]` of an array: the stored COLUMN of that name (the same definition, at the column type) -/
+def column (a : Vec (ι → X)) (c : CName) : Option (ι → X) := a.stored c
 
 variable {Bx : Type}
 
@@ -195,4 +199,57 @@ def Res.setBe {S B : Type} (b : Backend) : Res S B → Res S B
 def elemObj (a : Vec (ι → X)) (i : ι) : Vec X := (index a i).setBe .obj
 
 end
+
+/-! ### columns as a scalar type of the generated executable compute layer
+
+The generated compute functions (`Gen/Exec`) are polymorphic in a `Scalar` type.  Columns `ι → X` are one: every
+primitive acts position by position (this IS NumPy's semantics of `+`, `numpy.sin`, `numpy.where`-free code, …; literal
+constants are constant columns).  `Props/C03.lean` proves that the generated compute layer at this instance is
+`Ev.Elementwise` over the compute layer at `X`. -/
+
+/-- columns of scalars: every primitive acts position by position -/
+instance colScalar (ι X : Type) [VE.Scalar X] : VE.Scalar (ι → X) where
+  B := ι → VE.Scalar.B X
+  ofNat n := fun _ => VE.Scalar.ofNat n
+  ofSci m s e := fun _ => VE.Scalar.ofSci m s e
+  pi := fun _ => VE.Scalar.pi
+  libInf := fun _ => VE.Scalar.libInf
+  inf := fun _ => VE.Scalar.inf
+  nan := fun _ => VE.Scalar.nan
+  neg a := fun i => VE.Scalar.neg (a i)
+  add a b := fun i => VE.Scalar.add (a i) (b i)
+  sub a b := fun i => VE.Scalar.sub (a i) (b i)
+  mul a b := fun i => VE.Scalar.mul (a i) (b i)
+  div a b := fun i => VE.Scalar.div (a i) (b i)
+  npow a n := fun i => VE.Scalar.npow (a i) n
+  rpow a b := fun i => VE.Scalar.rpow (a i) (b i)
+  mod a b := fun i => VE.Scalar.mod (a i) (b i)
+  eq a b := fun i => VE.Scalar.eq (a i) (b i)
+  ne a b := fun i => VE.Scalar.ne (a i) (b i)
+  lt a b := fun i => VE.Scalar.lt (a i) (b i)
+  gt a b := fun i => VE.Scalar.gt (a i) (b i)
+  le a b := fun i => VE.Scalar.le (a i) (b i)
+  ge a b := fun i => VE.Scalar.ge (a i) (b i)
+  and a b := fun i => VE.Scalar.and (a i) (b i)
+  or a b := fun i => VE.Scalar.or (a i) (b i)
+  b2s a := fun i => VE.Scalar.b2s (a i)
+  sqrt a := fun i => VE.Scalar.sqrt (a i)
+  sin a := fun i => VE.Scalar.sin (a i)
+  cos a := fun i => VE.Scalar.cos (a i)
+  tan a := fun i => VE.Scalar.tan (a i)
+  exp a := fun i => VE.Scalar.exp (a i)
+  log a := fun i => VE.Scalar.log (a i)
+  sinh a := fun i => VE.Scalar.sinh (a i)
+  arcsinh a := fun i => VE.Scalar.arcsinh (a i)
+  arctan a := fun i => VE.Scalar.arctan (a i)
+  arccos a := fun i => VE.Scalar.arccos (a i)
+  abs a := fun i => VE.Scalar.abs (a i)
+  sign a := fun i => VE.Scalar.sign (a i)
+  arctan2 a b := fun i => VE.Scalar.arctan2 (a i) (b i)
+  copysign a b := fun i => VE.Scalar.copysign (a i) (b i)
+  max a b := fun i => VE.Scalar.max (a i) (b i)
+  min a b := fun i => VE.Scalar.min (a i) (b i)
+  nanToNum a p q r := fun i => VE.Scalar.nanToNum (a i) (p.map (· i)) (q.map (· i)) (r.map (· i))
+  isclose a b c d e := fun i => VE.Scalar.isclose (a i) (b i) (c i) (d i) (e i)
+
 end VG
